@@ -1197,8 +1197,11 @@ func (w *c11World) genOps(r *rand.Rand, reports []oracletypes.MicroReport, n int
 			kind := "addfee"
 			if bond {
 				sender = w.payer
-				if r.Intn(4) == 0 {
-					sender = w.h.reporter // the disputed reporter may not pay from bond
+				// the disputed reporter may not pay from bond (only for the dispute that names it: its stake is inside the
+				// projected slice, and a payment from it to another dispute would be a payment from stake of the kind the
+				// model keeps outside the slice)
+				if r.Intn(4) == 0 && d.InitialEvidence.Reporter == w.f.accts[w.h.reporter].String() {
+					sender = w.h.reporter
 					kind = "addfee-by-disputed"
 				}
 			}
